@@ -191,6 +191,22 @@ func handshakeOutcome(sc, cc net.Conn, srvCfg, cliCfg *tls.Config) string {
 	return "refuse"
 }
 
+// tcpPair returns two ends of a loopback TCP connection (buffered, unlike net.Pipe, so a failing side's alert never blocks).
+func tcpPair(t *testing.T) (net.Conn, net.Conn) {
+	l, err := net.Listen("tcp", "127.0.0.1:0")
+	if err != nil {
+		t.Fatal(err)
+	}
+	defer l.Close()
+	ch := make(chan net.Conn, 1)
+	go func() { c, _ := l.Accept(); ch <- c }()
+	c2, err := net.Dial("tcp", l.Addr().String())
+	if err != nil {
+		t.Fatal(err)
+	}
+	return <-ch, c2
+}
+
 func (k *certKit) peerClientConfig(cred string) *tls.Config {
 	pc := k.peerCred(cred, "client")
 	return &tls.Config{RootCAs: k.caPool, ServerName: "proxy.test", MinVersion: tls.VersionTLS12,
@@ -248,7 +264,7 @@ func TestC19(t *testing.T) {
 		// --- admission by real handshakes
 		for _, cred := range creds {
 			if sc != nil {
-				p1, p2 := net.Pipe()
+				p1, p2 := tcpPair(t)
 				got := handshakeOutcome(p1, p2, sc, k.peerClientConfig(cred))
 				op := fmt.Sprintf("srvadmit %s %s", c.String(), cred)
 				e.Emit(op, got)
@@ -265,7 +281,7 @@ func TestC19(t *testing.T) {
 				if pc != nil {
 					srv.Certificates = []tls.Certificate{*pc}
 				}
-				p1, p2 := net.Pipe()
+				p1, p2 := tcpPair(t)
 				got := handshakeOutcome(p1, p2, srv, cc)
 				op := fmt.Sprintf("cliadmit %s %s", c.String(), cred)
 				e.Emit(op, got)
